@@ -130,16 +130,24 @@ impl SavedPendingCompletion {
                 g.value.guard_by(guard);
                 SavedPendingCompletion::Throw(g.value.clone())
             }
-            PendingCompletion::Break { target, try_depth } => SavedPendingCompletion::Break {
+            PendingCompletion::Break {
+                target,
+                try_depth,
+                scope_depth,
+            } => SavedPendingCompletion::Break {
                 target: *target,
                 try_depth: *try_depth,
+                scope_depth: *scope_depth,
             },
-            PendingCompletion::Continue { target, try_depth } => {
-                SavedPendingCompletion::Continue {
-                    target: *target,
-                    try_depth: *try_depth,
-                }
-            }
+            PendingCompletion::Continue {
+                target,
+                try_depth,
+                scope_depth,
+            } => SavedPendingCompletion::Continue {
+                target: *target,
+                try_depth: *try_depth,
+                scope_depth: *scope_depth,
+            },
         }
     }
 
@@ -153,12 +161,24 @@ impl SavedPendingCompletion {
                 v.guard_by(guard);
                 PendingCompletion::Throw(Guarded::unguarded(v))
             }
-            SavedPendingCompletion::Break { target, try_depth } => {
-                PendingCompletion::Break { target, try_depth }
-            }
-            SavedPendingCompletion::Continue { target, try_depth } => {
-                PendingCompletion::Continue { target, try_depth }
-            }
+            SavedPendingCompletion::Break {
+                target,
+                try_depth,
+                scope_depth,
+            } => PendingCompletion::Break {
+                target,
+                try_depth,
+                scope_depth,
+            },
+            SavedPendingCompletion::Continue {
+                target,
+                try_depth,
+                scope_depth,
+            } => PendingCompletion::Continue {
+                target,
+                try_depth,
+                scope_depth,
+            },
         }
     }
 }
@@ -169,8 +189,16 @@ impl SavedPendingCompletion {
 pub enum SavedPendingCompletion {
     Return(JsValue),
     Throw(JsValue),
-    Break { target: usize, try_depth: u8 },
-    Continue { target: usize, try_depth: u8 },
+    Break {
+        target: usize,
+        try_depth: u8,
+        scope_depth: u8,
+    },
+    Continue {
+        target: usize,
+        try_depth: u8,
+        scope_depth: u8,
+    },
 }
 
 /// A call frame in the VM
@@ -214,9 +242,17 @@ pub enum PendingCompletion {
     /// Rethrow this exception after finally completes
     Throw(Guarded),
     /// Break to target after finally completes
-    Break { target: usize, try_depth: u8 },
+    Break {
+        target: usize,
+        try_depth: u8,
+        scope_depth: u8,
+    },
     /// Continue to target after finally completes
-    Continue { target: usize, try_depth: u8 },
+    Continue {
+        target: usize,
+        try_depth: u8,
+        scope_depth: u8,
+    },
 }
 
 /// A saved trampoline frame for suspension (Clone-able version without Guard)
@@ -2554,10 +2590,18 @@ impl BytecodeVM {
             }
 
             // NOTE: review
-            Op::Break { target, try_depth } => self.execute_break(target as usize, try_depth),
+            Op::Break {
+                target,
+                try_depth,
+                scope_depth,
+            } => self.execute_break(interp, target as usize, try_depth, scope_depth),
 
             // NOTE: review
-            Op::Continue { target, try_depth } => self.execute_continue(target as usize, try_depth),
+            Op::Continue {
+                target,
+                try_depth,
+                scope_depth,
+            } => self.execute_continue(interp, target as usize, try_depth, scope_depth),
 
             // ═══════════════════════════════════════════════════════════════════════════
             // Variable Access
@@ -3346,13 +3390,21 @@ impl BytecodeVM {
                             // Re-throw the exception after finally
                             return Err(JsError::ThrownValue { guarded });
                         }
-                        PendingCompletion::Break { target, try_depth } => {
+                        PendingCompletion::Break {
+                            target,
+                            try_depth,
+                            scope_depth,
+                        } => {
                             // Continue with the break (recursively handles nested finally blocks)
-                            return self.execute_break(target, try_depth);
+                            return self.execute_break(interp, target, try_depth, scope_depth);
                         }
-                        PendingCompletion::Continue { target, try_depth } => {
+                        PendingCompletion::Continue {
+                            target,
+                            try_depth,
+                            scope_depth,
+                        } => {
                             // Continue with the continue (recursively handles nested finally blocks)
-                            return self.execute_continue(target, try_depth);
+                            return self.execute_continue(interp, target, try_depth, scope_depth);
                         }
                     }
                 }
@@ -6161,7 +6213,13 @@ impl BytecodeVM {
 
     /// Execute a break, running any pending finally blocks first
     // NOTE: review
-    fn execute_break(&mut self, target: usize, try_depth: u8) -> Result<OpResult, JsError> {
+    fn execute_break(
+        &mut self,
+        interp: &mut Interpreter,
+        target: usize,
+        try_depth: u8,
+        scope_depth: u8,
+    ) -> Result<OpResult, JsError> {
         // Check if there's a try handler with a finally block between us and the target
         let target_try_depth = try_depth as usize;
 
@@ -6185,7 +6243,15 @@ impl BytecodeVM {
                 .ok_or_else(|| JsError::internal_error("Missing try handler"))?;
 
             // Save the pending break
-            self.pending_completion = Some(PendingCompletion::Break { target, try_depth });
+            self.pending_completion = Some(PendingCompletion::Break {
+                target,
+                try_depth,
+                scope_depth,
+            });
+
+            // Leave the block scopes entered inside the try statement (the finally block
+            // runs at the statement's own scope depth)
+            self.leave_scopes(interp, handler.scope_depth);
 
             // Pop the try handler (we're exiting this try block)
             self.try_stack.truncate(handler_idx);
@@ -6197,15 +6263,31 @@ impl BytecodeVM {
         }
 
         // No finally block, do normal break (just jump)
-        // Also pop try handlers down to the target level
+        // Also pop try handlers and block scopes down to the target level
+        self.leave_scopes(interp, scope_depth as usize);
         self.try_stack.truncate(target_try_depth);
         self.ip = target;
         Ok(OpResult::Continue)
     }
 
+    /// Leave block scopes until only `depth` of them are open
+    fn leave_scopes(&mut self, interp: &mut Interpreter, depth: usize) {
+        while self.saved_env_stack.len() > depth {
+            if let Some(env) = self.saved_env_stack.pop() {
+                interp.pop_scope(env);
+            }
+        }
+    }
+
     /// Execute a continue, running any pending finally blocks first
     // NOTE: review
-    fn execute_continue(&mut self, target: usize, try_depth: u8) -> Result<OpResult, JsError> {
+    fn execute_continue(
+        &mut self,
+        interp: &mut Interpreter,
+        target: usize,
+        try_depth: u8,
+        scope_depth: u8,
+    ) -> Result<OpResult, JsError> {
         // Check if there's a try handler with a finally block between us and the target
         let target_try_depth = try_depth as usize;
 
@@ -6229,7 +6311,15 @@ impl BytecodeVM {
                 .ok_or_else(|| JsError::internal_error("Missing try handler"))?;
 
             // Save the pending continue
-            self.pending_completion = Some(PendingCompletion::Continue { target, try_depth });
+            self.pending_completion = Some(PendingCompletion::Continue {
+                target,
+                try_depth,
+                scope_depth,
+            });
+
+            // Leave the block scopes entered inside the try statement (the finally block
+            // runs at the statement's own scope depth)
+            self.leave_scopes(interp, handler.scope_depth);
 
             // Pop the try handler (we're exiting this try block)
             self.try_stack.truncate(handler_idx);
@@ -6241,7 +6331,8 @@ impl BytecodeVM {
         }
 
         // No finally block, do normal continue (just jump)
-        // Also pop try handlers down to the target level
+        // Also pop try handlers and block scopes down to the target level
+        self.leave_scopes(interp, scope_depth as usize);
         self.try_stack.truncate(target_try_depth);
         self.ip = target;
         Ok(OpResult::Continue)
